@@ -176,6 +176,44 @@ def run(out: Outcome) -> None:
         if runs[0] != runs[1]:
             out.violation(f"permutation test with random_state={rs} is not repeatable", {"random_state": rs})
         out.case({"repeatable": rs})
+    # worker pools under every multiprocessing START METHOD (fork: Linux default up to 3.13; spawn: Windows / macOS default; forkserver: Linux default from 3.14):
+    # a fresh interpreter sets the method, runs the callback with num_jobs = 2 and must report what this process reports with num_jobs = 1
+    import json
+    import subprocess
+    import sys
+    from common import REPO
+    refv, testv = [rng.gauss(0, 1) for _ in range(7)], [rng.gauss(0.7, 1) for _ in range(6)]
+    cb = PermutationTestDistanceBased(num_permutations=10, random_state=3, num_jobs=1, name="perm")
+    det = EMD(callbacks=[cb])
+    det.fit(X=np.array(refv))
+    _, logs = det.compare(X=np.array(testv))
+    here = ([float(v) for v in logs["perm"]["permuted_statistics"]], float(logs["perm"]["p_value"]))
+    code = ("import sys, json; sys.path.insert(0, %r)\n"
+            "import multiprocessing as mp\n"
+            "if __name__ == '__main__':\n"
+            "    req = json.loads(sys.stdin.read())\n"
+            "    mp.set_start_method(req['method'], force=True)\n"
+            "    import numpy as np\n"
+            "    from frouros.callbacks.batch import PermutationTestDistanceBased\n"
+            "    from frouros.detectors.data_drift.batch import EMD\n"
+            "    cb = PermutationTestDistanceBased(num_permutations=10, random_state=3, num_jobs=2, name='perm')\n"
+            "    det = EMD(callbacks=[cb]); det.fit(X=np.array(req['ref']))\n"
+            "    _, logs = det.compare(X=np.array(req['test']))\n"
+            "    print(json.dumps([[float(v) for v in logs['perm']['permuted_statistics']], float(logs['perm']['p_value'])]))\n") % str(REPO)
+    for method in (("fork", "spawn", "forkserver") if thorough else ("spawn", "forkserver")):
+        rep = {"start_method": method, "ref": refv, "test": testv}
+        try:
+            r = subprocess.run([sys.executable, "-c", code], input=json.dumps({"method": method, "ref": refv, "test": testv}), capture_output=True, text=True, timeout=600)
+        except subprocess.TimeoutExpired:
+            out.violation(f"permutation test with num_jobs=2 under the '{method}' start method did not finish", rep)
+            continue
+        if r.returncode != 0:
+            out.violation(f"permutation test with num_jobs=2 under the '{method}' start method failed: {r.stderr.strip().splitlines()[-1][:200] if r.stderr.strip() else r.returncode}", rep)
+        else:
+            there = json.loads(r.stdout.strip().splitlines()[-1])
+            if [there[0], there[1]] != [here[0], here[1]]:
+                out.violation(f"permutation test with num_jobs=2 under the '{method}' start method reports p={there[1]!r}, with num_jobs=1 in this process p={here[1]!r}", rep)
+        out.case({"start_method": method})
     # formula grid through the model
     grid = [(b, m, mt) for m in (1, 5, 20) for b in sorted({0, 1, m // 2, m}) if b <= m for mt in (2, 6, 24, 120)]
     for (b, m, mt) in grid:
